@@ -1911,6 +1911,9 @@ class _AnsiSettingPoint:
             for format in formats:
                 ansi_fmt_enum = None
                 try:
+                    if not format.isascii():
+                        # The names are ASCII; str.upper() would map some other letters onto them (sharp s, dotless i, ligatures)
+                        raise KeyError(format)
                     ansi_fmt_enum = AnsiFormat[format.upper().replace(' ', '_').replace('-', '_')]
                 except KeyError:
                     rgb_format_list = __class__._parse_rgb_string(format)
